@@ -262,7 +262,7 @@ def main():
         distinct_nontrivial=max([r['distinct_nontrivial'] for r in results] + [0]),
         rule=chk['rule'],
         samples=[s for r in results for s in r['samples']][:10] or ['(none recorded)'],
-        exhaustive=all((not r['deadline_hit']) for r in results) and not any('out=hang' in s for s in bysig),
+        exhaustive=all((not r['deadline_hit']) and not r.get('restart_cap_hit') for r in results) and not any('out=hang' in s for s in bysig),
         distinct_outcomes=max([r['distinct_outcomes'] for r in results] + [0]),
         outcome_classes=sorted(set(o for r in results for o in r['outcomes']))[:60],
         choice_points=sum(r['choice_points'] for r in results),
@@ -271,7 +271,7 @@ def main():
         deviation_bound_requested=max([r['max_dev'] for r in results] + [0]),
         deadline_hit=any(r['deadline_hit'] for r in results),
         per_variant=[dict(variant=r['variant'], executions=r['executions'], states=r['states'], aux=r.get('aux', 0), transitions=r['transitions'], distinct_outcomes=r['distinct_outcomes'],
-                          distinct_nontrivial=r['distinct_nontrivial'], wall_s=r['wall_s'], worker_restarts=r['restarts'], spurious_stalls_retried=r.get('spurious_stalls', 0), deadline_hit=r['deadline_hit']) for r in results],
+                          distinct_nontrivial=r['distinct_nontrivial'], wall_s=r['wall_s'], worker_restarts=r['restarts'], spurious_stalls_retried=r.get('spurious_stalls', 0), deadline_hit=r['deadline_hit'], restart_cap_hit=bool(r.get('restart_cap_hit'))) for r in results],
         known_findings_matched={k: len(v) for k, v in known_hits.items()},
         stale_known_finding_patterns=stale,
         violation_signatures=len(bysig),
